@@ -511,8 +511,50 @@ def check_trim_real(specs):
 
 
 # ------------------------------------------------------------------------------------------- driver
+# ------------------------------------------------------------------------------------------------ D: the tail window scan
+def window_scan_chunk(args):
+    """PolyAFinder.find_polya against its definition - the first window (the last one excepted, as in the code) that holds at least
+    polyA_count A's, moved on to the first 'AA' from there - for every string over {A, C} of the given lengths"""
+    window, lengths, lo, hi = args
+    from src.polya_finder import PolyAFinder
+    f = PolyAFinder(window, 0.75)
+    need = int(window * 0.75)
+    bad = []
+    n = 0
+    for ln in lengths:
+        for v in range(lo, min(hi, 1 << ln)):
+            seq = "".join("A" if (v >> j) & 1 else "C" for j in range(ln))
+            n += 1
+            exp = -1
+            if ln >= window:
+                for i in range(0, ln - window):
+                    if seq.count("A", i, i + window) >= need:
+                        exp = i + max(0, seq[i:].find("AA"))
+                        break
+            try:
+                got = f.find_polya(seq)
+            except Exception as e:  # noqa
+                got = "EXC " + repr(e)
+            if got != exp:
+                bad.append((window, seq, got, exp))
+                if len(bad) > 5:
+                    return n, bad
+    return n, bad
+
+
 def run(ctx):
     quick = ctx.tier == "quick"
+    wj = [(4, list(range(0, 13 if quick else 15)), 0, 1 << 15)]
+    top = 19 if quick else 22
+    step = 1 << 14
+    wj += [(16, [ln], lo, lo + step) for ln in range(15, top + 1) for lo in range(0, 1 << ln, step)]
+    wn = 0
+    for n_, bad in core.pmap(window_scan_chunk, wj, chunksize=4):
+        wn += n_
+        for window, seq, got, exp in bad[:2]:
+            ctx.violation("window-scan:find_polya", "PolyAFinder(window %d).find_polya(%r) -> %s, definition %s" % (window, seq, got, exp),
+                          {"kind": "window_scan", "window": window, "seq": seq})
+    ctx.note("tail window scan: %d strings over {A, C} (window 4: every length <=%d; window 16: every length 15..%d)" % (wn, 12 if quick else 14, top))
     k = 5 if quick else 6
     seqs = list(core_sequences(k))
     short = [s for s in seqs if len(s) <= (3 if quick else 4)]
@@ -582,6 +624,16 @@ def run(ctx):
 def replay(ctx, case):
     import re
     from src.common import get_read_blocks
+    if case.get("kind") == "window_scan":
+        from src.polya_finder import PolyAFinder
+        seq, window = case["seq"], case["window"]
+        exp = -1
+        for i in range(0, len(seq) - window):
+            if seq.count("A", i, i + window) >= int(window * 0.75):
+                exp = i + max(0, seq[i:].find("AA"))
+                break
+        got = PolyAFinder(window, 0.75).find_polya(seq)
+        return None if got == exp else "find_polya(%r) -> %s, definition %s" % (seq, got, exp)
     if case.get("kind") == "cigar":
         cig = [(OPC.index(o), int(l)) for l, o in re.findall(r"(\d+)([MIDNSHP=X])", case["cigar"])]
         got = get_read_blocks(case["ref_start"], cig)
